@@ -16,7 +16,7 @@ from ..core import guarded
 ID = "C10"
 TECHNIQUE = ("Hypothesis-generated shifts and vibronic molecules/aggregates against closed-form Franck-Condon "
              "factors (Poisson/Laguerre) times the from-scratch Frenkel electronic model")
-LEVEL = ("(a) operator_factory(100).shift_operator(d) for generated shifts |d| <= 3: leading 20x20 block (the block the "
+LEVEL = ("(System cases also with build(mult=2, fem_full=True), Huang-Rhys factors up to 4.5 with up to 14 excited-state levels, and aggregates rebuilt after a Huang-Rhys factor was changed.) " "(a) operator_factory(100).shift_operator(d) for generated shifts |d| <= 3: leading 20x20 block (the block the "
          "aggregate uses) against the Laguerre closed form, first column against the Poisson law with mean d^2/2, "
          "orthogonality of the 100-level matrix and of the physically converged leading rows. (b) generated molecules "
          "with 1-2 modes and aggregates of 1-3 of them: number of vibronic states per electronic state, and every "
